@@ -1,11 +1,11 @@
 package ed25519
 
 import (
-	"io"
-	"strings"
 	"bytes"
 	"fmt"
+	"io"
 	"math/big"
+	"strings"
 
 	"github.com/oasisprotocol/ed25519/internal/ge25519"
 	"github.com/oasisprotocol/ed25519/internal/modm"
